@@ -44,23 +44,28 @@ theorem scanStrBody_run (q : Char) (p : List Char) :
       simp only [List.cons_append, scanStrBody, hs, this, Nat.add_assoc]
       cases scanStrBody q st2 (n + (inc + k2)) rest <;> simp
 
-/-- the unquoter's state after the characters `p` and what it emitted -/
-def runUnq (q : Char) : UnqSt → List Char → Option (UnqSt × List (Option Char))
+/-- the unquoter's state after the characters `p` and the bytes it emitted -/
+def runUnq (q : Char) : UnqSt → List Char → Option (UnqSt × List Char)
   | st, [] => some (st, [])
   | st, c :: cs =>
     match unqStep q st c with
-    | .next st' e => (runUnq q st' cs).map fun r => (r.1, e.toList ++ r.2)
+    | .next st' e => (runUnq q st' cs).map fun r => (r.1, e ++ r.2)
     | .err => none
 
+theorem Unq.app_app (a b : List Char) (u : Unq) : (u.app b).app a = u.app (a ++ b) := by
+  cases u <;> simp [Unq.app]
+
+theorem Unq.app_nil (u : Unq) : u.app [] = u := by cases u <;> simp [Unq.app]
+
 theorem unqBody_run (q : Char) (p : List Char) :
-    ∀ (st st' : UnqSt) (out : List (Option Char)) (c : Char) (rest : List Char), runUnq q st p = some (st', out) →
-      unqBody q st (p ++ c :: rest) = out.foldr Unq.cons (unqBody q st' (c :: rest)) := by
+    ∀ (st st' : UnqSt) (out : List Char) (c : Char) (rest : List Char), runUnq q st p = some (st', out) →
+      unqBody q st (p ++ c :: rest) = (unqBody q st' (c :: rest)).app out := by
   induction p with
   | nil =>
     intro st st' out c rest h
     simp only [runUnq, Option.some.injEq, Prod.mk.injEq] at h
     obtain ⟨rfl, rfl⟩ := h
-    simp
+    simp [Unq.app_nil]
   | cons d ds ih =>
     intro st st' out c rest h
     simp only [runUnq] at h
@@ -72,14 +77,11 @@ theorem unqBody_run (q : Char) (p : List Char) :
       simp only [Prod.mk.injEq] at heq
       obtain ⟨rfl, rfl⟩ := heq
       have := ih st1 st2 o2 c rest hr
-      cases e with
-      | none => simp [unqBody, hs, this]
-      | some e => simp [unqBody, hs, this]
+      simp [unqBody, hs, this, Unq.app_app]
 
 /-- the same at the end of the body -/
 theorem unqBody_run_end (q : Char) (p : List Char) :
-    ∀ (st : UnqSt) (out : List (Option Char)), runUnq q st p = some (.normal, out) →
-      unqBody q st p = out.foldr Unq.cons (.ok []) := by
+    ∀ (st : UnqSt) (out : List Char), runUnq q st p = some (.normal, out) → unqBody q st p = .ok out := by
   induction p with
   | nil =>
     intro st out h
@@ -97,9 +99,7 @@ theorem unqBody_run_end (q : Char) (p : List Char) :
       simp only [Prod.mk.injEq] at heq
       obtain ⟨rfl, rfl⟩ := heq
       have := ih st1 o2 hr
-      cases e with
-      | none => simp [unqBody, hs, this]
-      | some e => simp [unqBody, hs, this]
+      simp [unqBody, hs, this, Unq.app]
 
 /-! ### the finite table: every ASCII character -/
 
@@ -108,7 +108,7 @@ theorem quoteChar_scan_table :
   decide +kernel
 
 theorem quoteChar_unq_table :
-    ∀ k : Fin 128, runUnq '"' .normal (quoteChar (Char.ofNat k.val)) = some (.normal, [some (Char.ofNat k.val)]) := by
+    ∀ k : Fin 128, runUnq '"' .normal (quoteChar (Char.ofNat k.val)) = some (.normal, [Char.ofNat k.val]) := by
   decide +kernel
 
 theorem quoteChar_noNUL_table : ∀ k : Fin 128, (quoteChar (Char.ofNat k.val)).contains NUL = false := by
@@ -122,7 +122,7 @@ theorem quoteChar_scan (c : Char) (h : isAscii c = true) : runScan '"' .normal (
   obtain ⟨k, rfl⟩ := ascii_is_table c h
   exact quoteChar_scan_table k
 
-theorem quoteChar_unq (c : Char) (h : isAscii c = true) : runUnq '"' .normal (quoteChar c) = some (.normal, [some c]) := by
+theorem quoteChar_unq (c : Char) (h : isAscii c = true) : runUnq '"' .normal (quoteChar c) = some (.normal, [c]) := by
   obtain ⟨k, rfl⟩ := ascii_is_table c h
   exact quoteChar_unq_table k
 
@@ -156,7 +156,7 @@ theorem runScan_append (q : Char) (p p2 : List Char) :
       simp [runScan, hs, this, Nat.add_assoc]
 
 theorem runUnq_append (q : Char) (p p2 : List Char) :
-    ∀ (st st1 st2 : UnqSt) (o1 o2 : List (Option Char)), runUnq q st p = some (st1, o1) → runUnq q st1 p2 = some (st2, o2) →
+    ∀ (st st1 st2 : UnqSt) (o1 o2 : List Char), runUnq q st p = some (st1, o1) → runUnq q st1 p2 = some (st2, o2) →
       runUnq q st (p ++ p2) = some (st2, o1 ++ o2) := by
   induction p with
   | nil =>
@@ -185,7 +185,7 @@ theorem quoteBody_scan (s : S) (h : s.all isAscii = true) : runScan '"' .normal 
     have := runScan_append '"' (quoteChar c) (quoteBody cs) _ _ _ _ _ (quoteChar_scan c hc.1) (ih hc.2)
     simpa [quoteBody, Nat.add_comm] using this
 
-theorem quoteBody_unq (s : S) (h : s.all isAscii = true) : runUnq '"' .normal (quoteBody s) = some (.normal, s.map some) := by
+theorem quoteBody_unq (s : S) (h : s.all isAscii = true) : runUnq '"' .normal (quoteBody s) = some (.normal, s) := by
   induction s with
   | nil => simp [quoteBody, runUnq]
   | cons c cs ih =>
@@ -193,14 +193,9 @@ theorem quoteBody_unq (s : S) (h : s.all isAscii = true) : runUnq '"' .normal (q
     have := runUnq_append '"' (quoteChar c) (quoteBody cs) _ _ _ _ _ (quoteChar_unq c hc.1) (ih hc.2)
     simpa [quoteBody] using this
 
-theorem foldr_cons_some (s : S) : (s.map some).foldr Unq.cons (.ok []) = .ok s := by
-  induction s with
-  | nil => rfl
-  | cons c cs ih => simp [ih, Unq.cons]
-
 /-- strconv.Unquote inverts strconv.Quote (body level) -/
 theorem unqBody_quoteBody (s : S) (h : s.all isAscii = true) : unqBody '"' .normal (quoteBody s) = .ok s := by
-  rw [unqBody_run_end '"' _ _ _ (quoteBody_unq s h), foldr_cons_some]
+  rw [unqBody_run_end '"' _ _ _ (quoteBody_unq s h)]
 
 /-- the scanner stops at the closing quote strconv.Quote wrote, wherever the literal stands -/
 theorem scanStrBody_quoteBody (s : S) (h : s.all isAscii = true) (rest : List Char) :
